@@ -81,6 +81,24 @@ func refMatrixReplace(s string, perm map[string]string) (out string, unknown []s
 	return b.String(), unknown, tokens
 }
 
+func sortedKeys(m map[string]string) []string {
+	ks := make([]string, 0, len(m))
+	for k := range m {
+		ks = append(ks, k)
+	}
+	sort.Strings(ks)
+	return ks
+}
+
+func sortedKeysAny(m map[string]any) []string {
+	ks := make([]string, 0, len(m))
+	for k := range m {
+		ks = append(ks, k)
+	}
+	sort.Strings(ks)
+	return ks
+}
+
 var attributeNames = map[string]bool{"agents": true, "depends_on": true, "timeout_in_minutes": true, "retry": true, "artifact_paths": true, "branches": true, "if": true,
 	"soft_fail": true, "concurrency": true, "parallelism": true, "priority": true, "notify": true, "skip": true, "allow_dependency_failure": true}
 
@@ -334,8 +352,47 @@ func runC12(c *engine.Ctx) {
 				missingDim = "os"
 			}
 		}
-		cs.Command += " {{matrix." + missingDim + "}}"
+		tok := " {{matrix." + missingDim + "}}"
+		placed := "command"
+		switch p.Draw(5, "perm:missing-where") {
+		case 1:
+			if len(cs.Env) > 0 {
+				for _, k := range sortedKeys(cs.Env) {
+					cs.Env[k] += tok
+					placed = "env value"
+					break
+				}
+			}
+		case 2:
+			for _, pl := range cs.Plugins {
+				if m, ok := pl.Config.(map[string]any); ok && len(m) > 0 {
+					for _, k := range sortedKeysAny(m) {
+						if sv, ok := m[k].(string); ok {
+							m[k] = sv + tok
+							placed = "plugin config value"
+							break
+						}
+					}
+				}
+				if placed != "command" {
+					break
+				}
+			}
+		case 3:
+			if cs.RemainingFields == nil {
+				cs.RemainingFields = map[string]any{}
+			}
+			cs.RemainingFields["x-missing"] = []any{"plain", map[string]any{"deep": "v" + tok}}
+			placed = "unknown field (nested)"
+		case 4:
+			cs.Label += tok
+			placed = "label"
+		}
+		if placed == "command" {
+			cs.Command += tok
+		}
 		c.Fault("unknown_dimension_token", missingDim)
+		c.Tag("unknown_token_placed_in", placed)
 	}
 
 	before := view.Dump(&cs)
